@@ -89,3 +89,65 @@ buffer_extractor = Contract("C02.DelimitedBuffer._get_buffer_extractor", target=
                                       ("entry ends before the newline", "entry_ends = ends[:, -1] + 1", "entry_ends = ends[:, -1]")])
 
 CONTRACTS = [buffer_extractor]
+
+
+# --- FASTA / FASTQ line roles: OneLineBuffer._get_buffer_extractor for the real subclasses with 2 and 4 lines per entry -------------------------
+# field l of entry e is line e*n + l without its first _line_offsets[l] bytes (the header marker) and without a trailing '\r';
+# an entry spans from the start of its first line to just after the newline of its last line.
+def _olb(name):
+    from bionumpy.io.one_line_buffer import TwoLineFastaBuffer
+    from bionumpy.io.fastq_buffer import FastQBuffer
+    return {"TwoLineFastaBuffer": TwoLineFastaBuffer, "FastQBuffer": FastQBuffer}[name]
+
+
+def _setup_olb(name):
+    def setup(ctx):
+        st = St()
+        st.cls = _olb(name)
+        st.nper, st.offs = st.cls.n_lines_per_entry, tuple(st.cls._line_offsets)
+        st.N, st.r = z3.Int("N"), z3.Int("n_entries")
+        st.D = z3.Function("D", z3.IntSort(), z3.IntSort())
+        st.NL = z3.Function("NL", z3.IntSort(), z3.IntSort())
+        st.crlf = z3.Bool("crlf")
+        st.data = SArr.fresh(st.N, lambda p: st.D(I(p)), enc="BaseEncoding")
+        st.args = [st.cls, st.data, SArr.fresh(st.r * st.nper, lambda t: st.NL(I(t)))]
+        return st
+    return setup
+
+
+def _req_olb(ctx, st):
+    m = st.r * st.nper
+    ctx.index_terms.append(z3.IntVal(0))
+    line_start = lambda t: Ite(I(t) == 0, 0, st.NL(I(t) - 1) + 1)
+    return [st.r >= 1, st.N == st.NL(m - 1) + 1,
+            Forall(lambda t: Implies(in_range(t, m), And(in_range(st.NL(t), st.N), st.D(st.NL(t)) == 10, Implies(t + 1 < m, st.NL(t) < st.NL(t + 1)),
+                                                         (st.D(st.NL(t) - 1) == 13) == st.crlf, st.NL(t) >= line_start(t) + 1, Implies(st.crlf, st.NL(t) >= line_start(t) + 2))),
+                   triggers=[st.NL], name="new_lines: increasing newline positions; uniform line ends; no empty line (a header line has at least its marker)")]
+
+
+def _ens_olb(ctx, st, ret):
+    fs, fl = ret.get("_field_starts"), ret.get("_field_lens")
+    es, ee = ret.get("_entry_starts"), ret.get("_entry_ends")
+    n = st.nper
+    line_start = lambda t: Ite(I(t) == 0, 0, st.NL(I(t) - 1) + 1)
+    goals = [("shape", And(I(fs.rows) == st.r, I(fs.cols) == n, I(es.length) == st.r, I(ee.length) == st.r))]
+    for l in range(n):
+        goals.append(("line.%d.of.every.entry.is.field.%d (marker offset %d, CR stripped)" % (l, l, st.offs[l]),
+                      Forall(lambda e, l=l: Implies(in_range(e, st.r), And(fs.at2(e, l) == line_start(I(e) * n + l) + st.offs[l],
+                                                                       I(fs.at2(e, l)) + I(fl.at2(e, l)) == st.NL(I(e) * n + l) - Ite(st.crlf, 1, 0))))))
+    goals += [("entry.starts.at.its.first.line", Forall(lambda e: Implies(in_range(e, st.r), es.at(e) == line_start(I(e) * n)))),
+              ("entry.ends.after.the.newline.of.its.last.line", Forall(lambda e: Implies(in_range(e, st.r), I(ee.at(e)) - 1 == st.NL(I(e) * n + n - 1))))]
+    return goals
+
+
+def _mk_olb(name):
+    return Contract("C02.OneLineBuffer._get_buffer_extractor[%s]" % name, target=lambda: _olb(name)._get_buffer_extractor.__func__, setup=_setup_olb(name),
+                    requires=_req_olb, ensures=_ens_olb,
+                    hints=lambda ctx, st, ks: [st.NL(I(k) * st.nper + l) for k in ks[:1] for l in range(-1, st.nper)],
+                    decorators={"@classmethod": "receiver is the real subclass"},
+                    canaries=[("marker offset dropped", "+(np.array(cls._line_offsets))", "+(0*np.array(cls._line_offsets))"),
+                              ("entry ends one line early", "entry_ends = tmp[::cls.n_lines_per_entry][1:]", "entry_ends = tmp[cls.n_lines_per_entry-1::cls.n_lines_per_entry]")])
+
+
+olb_fasta, olb_fastq = _mk_olb("TwoLineFastaBuffer"), _mk_olb("FastQBuffer")
+CONTRACTS += [olb_fasta, olb_fastq]
